@@ -191,6 +191,12 @@ def run(ctx):
             if "{\n" in src:
                 src += "}\n"
             progs.append({"src": src, "rom": "low_rom", "files": {"t.tbl": rng.choice(tables)}, "bins": {}, "hist": {}})
+        # table files with lines that are not entries: long runs of hex digits (checksums), rulers, long blank runs
+        junk = ["0123456789abcdef0123456789abcdef", "d41d8cd98f00b204e9800998ecf8427e d41d8cd98f00b204e9800998ecf8427e", "a" * 40, "F" * 64 + " ; sha",
+                "=" * 60, "-" * 80, " " * 70 + "x", "00" * 24 + "!", "0123456789ABCDEF" * 3 + "=", "1f" * 20 + ":", ("ab " * 20).strip()]
+        for k in range(len(junk) if tier == "quick" else 3 * len(junk)):
+            tbl = rng.choice(["", "; table\n"]) + junk[k % len(junk)] + "\n01=a\n02=b\n" + (junk[(k * 7 + 3) % len(junk)] + "\n" if k % 2 else "")
+            progs.append({"src": ".table 't.tbl'\n*=0x008000\n.text 'ab'\nafter:\n.dw after\n", "rom": "low_rom", "files": {"t.tbl": tbl}, "bins": {}, "hist": {}})
         # deep nesting: the work per reference must not explode with the number of enclosing scopes
         for depth in ((30, 45) if tier == "quick" else (25, 30, 40, 60, 90)):
             progs.append({"src": "top := 7\nlab:\n" + "{\n" * depth + ".db top\n.dw lab\n" + "}\n" * depth, "rom": "low_rom", "files": {}, "bins": {}, "hist": {}})
